@@ -382,7 +382,10 @@ class Engine:
                     if cand is not None and not cand.get('static'):
                         g = cand
                         break
-            ok = g is not None and g.get('t', '').startswith('const ') and '[' in g.get('t', '') and isinstance(g.get('init'), dict) and g['init'].get('k') == 'list'
+            ok = g is not None and '[' in g.get('t', '') and isinstance(g.get('init'), dict) and g['init'].get('k') == 'list'
+            if ok and not g.get('t', '').startswith('const '):
+                # not declared const: still a lookup table if it is private to its file and nothing there writes it or takes an address into it
+                ok = bool(g.get('static')) and root.startswith('S:') and self._never_written(unit, name)
             cache[root] = (g['init'], g.get('fields') or []) if ok else None
         if cache[root] is None:
             return TOP
@@ -420,6 +423,24 @@ class Engine:
             else:
                 return TOP
         return frozenset(out)
+
+    def _never_written(self, unit, name):
+        d = 'S:' + name
+        for f in unit.functions.values():
+            for x in f.all_x():
+                tgt = None
+                if x.k == 'asg' and x.args:
+                    tgt = x.args[0]
+                elif x.k == 'un' and x.op in ('&', 'pre++', 'pre--', 'post++', 'post--') and x.args:
+                    tgt = x.args[0]
+                if tgt is None:
+                    continue
+                y = tgt.strip()
+                while y is not None and y.k in ('idx', 'mem', 'cast', 'un') and y.args:
+                    y = y.args[0].strip() if y.args[0] is not None else None
+                if y is not None and y.k == 'ref' and y.n.get('d') == d:
+                    return False
+        return True
 
     def stored_or_input(self, E, p):
         """the value a read-modify-write (++, +=) starts from: what the path holds, or the input cell the hooks supply for it"""
